@@ -49,6 +49,14 @@ def binding_cases():
         ("def f(xs) do xs = xs + [1]; xs end; def l = [0]; [f(l), f(l), l]", ('text', "[[0, 1], [0, 1], [0]]")),
         ("def c = 0; def bump() do c = c + 1; c end; def shadow() do def c = 100; c = c + 1; c end; [bump(), shadow(), bump(), c]", ('text', "[1, 101, 2, 2]")),
         ("def f() do undefined_name = 1 end; f()", ('error', "'ERROR'")),
+        # destructuring assignment follows the same rule: it updates the nearest enclosing bindings and never creates one
+        ("def a = 1; def b = 2; def f() do [a, b] = [10, 20]; 0 end; f(); [a, b]", ('text', "[10, 20]")),
+        ("def mk() do def p = 1; def q = 2; [fn() do [p, q] = [q, p]; 0 end, fn() [p, q]] end; def fs = mk(); fs[0](); fs[1]()", ('text', "[2, 1]")),
+        ("def a = 1; def f() do def a = 5; def g() do [a] = [6]; 0 end; g(); a end; [f(), a]", ('text', "[6, 1]")),
+        ("def f() do [u1, u2] = [1, 2] end; f()", ('error', "'ERROR'")),
+        ("def a = 1; def f() do [a, u3] = [1, 2] end; do f() catch all a end", ('text', "1")),
+        ("def x = 1; def f() do x += 5; 0 end; f(); f(); x", ('text', "11")),
+        ("def l = [1, 2]; def f() do l[0] = 9; 0 end; f(); l", ('text', "[9, 2]")),
         ("def f() do def inner = 1; inner end; f(); inner", ('error', "'ERROR'")),
         ("def x = 'outer'; def show() x; def caller() do def x = 'caller'; show() end; caller()", ('text', "'outer'")),
         ("def mk(n) fn() do n = n + 1; n end; def c1 = mk(0); def c2 = mk(10); [c1(), c1(), c2(), c1()]", ('text', "[1, 2, 11, 3]")),
